@@ -18,6 +18,10 @@ type SkipCase struct {
 	Dialect string        `json:"dialect"`
 	Edits   []c02.EditRef `json:"edits"`
 	Skip    []string      `json:"skip"` // change kind names
+	// View: a materialized view with indexes on both sides whose index lists differ by these operations
+	// (add-index, drop-index, modify-index), so that index changes also occur nested in a ModifyView;
+	// view-add / view-drop put a second view on one side only.
+	View []string `json:"view,omitempty"`
 }
 
 var SkipKinds = map[string]schema.Change{
@@ -25,6 +29,47 @@ var SkipKinds = map[string]schema.Change{
 	"AddColumn": &schema.AddColumn{}, "DropColumn": &schema.DropColumn{}, "ModifyColumn": &schema.ModifyColumn{},
 	"AddIndex": &schema.AddIndex{}, "DropIndex": &schema.DropIndex{}, "ModifyIndex": &schema.ModifyIndex{},
 	"AddForeignKey": &schema.AddForeignKey{}, "DropForeignKey": &schema.DropForeignKey{}, "ModifyForeignKey": &schema.ModifyForeignKey{},
+	"AddView": &schema.AddView{}, "DropView": &schema.DropView{}, "ModifyView": &schema.ModifyView{},
+}
+
+// addViews puts the materialized view(s) of the case on one side (0 = current, 1 = desired).
+func addViews(s *schema.Schema, side int, ops []string) {
+	has := func(op string) bool {
+		for _, o := range ops {
+			if o == op {
+				return true
+			}
+		}
+		return false
+	}
+	if len(ops) == 0 {
+		return
+	}
+	mk := func(name string) *schema.View {
+		v := schema.NewMaterializedView(name, "SELECT id, uname, age FROM users")
+		v.AddColumns(schema.NewColumn("id").SetType(&schema.IntegerType{T: "bigint"}), schema.NewColumn("uname").SetType(&schema.StringType{T: "text"}),
+			schema.NewNullColumn("age").SetType(&schema.IntegerType{T: "bigint"}))
+		return v
+	}
+	v := mk("mv_stats")
+	col := func(n string) *schema.Column { c, _ := v.Column(n); return c }
+	v.AddIndexes(schema.NewIndex("vi_keep").AddColumns(col("id")))
+	if side == 0 && has("drop-index") {
+		v.AddIndexes(schema.NewIndex("vi_drop").AddColumns(col("uname")))
+	}
+	if side == 1 && has("add-index") {
+		v.AddIndexes(schema.NewIndex("vi_add").AddColumns(col("age")))
+	}
+	if has("modify-index") {
+		v.AddIndexes(schema.NewIndex("vi_mod").SetUnique(side == 1).AddColumns(col("uname"), col("age")))
+	}
+	s.AddViews(v)
+	if side == 1 && has("view-add") {
+		s.AddViews(mk("mv_new"))
+	}
+	if side == 0 && has("view-drop") {
+		s.AddViews(mk("mv_old"))
+	}
 }
 
 func SkipKindNames() []string {
@@ -50,6 +95,14 @@ func filterChanges(cs []schema.Change, skip map[reflect.Type]bool) []schema.Chan
 			}
 			c = &schema.ModifyTable{T: m.T, Changes: inner}
 		}
+		// the case's views differ in their indexes only: a ModifyView left empty disappears as well
+		if m, ok := c.(*schema.ModifyView); ok {
+			inner := filterChanges(m.Changes, skip)
+			if len(inner) == 0 {
+				continue
+			}
+			c = &schema.ModifyView{From: m.From, To: m.To, Changes: inner}
+		}
 		out = append(out, c)
 	}
 	return out
@@ -59,6 +112,9 @@ func walk(cs []schema.Change, f func(schema.Change)) {
 	for _, c := range cs {
 		f(c)
 		if m, ok := c.(*schema.ModifyTable); ok {
+			walk(m.Changes, f)
+		}
+		if m, ok := c.(*schema.ModifyView); ok {
 			walk(m.Changes, f)
 		}
 	}
@@ -83,6 +139,10 @@ func checkSkip(c SkipCase) (SkipOutcome, error) {
 			return nil, nil, err
 		}
 		b, err := gm.Build(c.Dialect, edited)
+		if err == nil {
+			addViews(a, 0, c.View)
+			addViews(b, 1, c.View)
+		}
 		return a, b, err
 	}
 	a, b, err := build()
